@@ -21,7 +21,7 @@ ASSUMPTIONS = [
     "values of DO UPDATE SET may be qualified with the target table (needed to tell them from EXCLUDED.col)",
 ]
 
-NSHAPE = 11
+NSHAPE = 12
 
 
 def pin(v, n):
@@ -65,6 +65,8 @@ def sources(shape):
         return [Src(AliasedQuery("cte"), "cte", False, cte=True)], False
     if shape == 10:  # plain table, WHERE mentions an outside table
         return [Src(t, "t", False)], True
+    if shape == 11:  # plain table, WHERE mentions an outside, aliased instance of the SAME table through a same-named column
+        return [Src(t, "t", False)], True
     raise AssertionError(shape)
 
 
@@ -96,6 +98,18 @@ def build_select(shape, d, opt):
         refs.append(("c10", "out", False))
         return q.where(col("c11", 0) == Field("c10", table=out))
 
+    def same_table(q):
+        # correlated with "t AS o" through column c14 of both; operand order and conjunct order from the options
+        o = Table("t", alias="o")
+        refs.append(("c14", "same", False))
+        own, out = Field("c14", table=srcs[0].obj), Field("c14", table=o)
+        crit = (out == own) if opt[3] else (own == out)
+        if opt[2]:
+            crit = crit & (col("c15", 0) != 3) if opt[3] else (col("c15", 0) != 3) & crit
+        return q.where(crit)
+
+    if shape == 11:
+        q = same_table(q)
     if shape == 10 and opt[3]:
         q = foreign(q)  # the outside reference comes first, purely local criteria follow
     if opt[0]:
@@ -140,6 +154,11 @@ def judge_refs(sql, d, refs, srcs, multi):
         quals = find_qualifier(sql, q, name)
         if not quals:
             return "reference %s not found" % name
+        if s == "same":
+            # one occurrence qualified with the statement's own table, one with the outside alias
+            if sorted(quals, key=str) != ["o", "t"]:
+                return "%s: qualifiers %r, expected ['o', 't']" % (name, quals)
+            continue
         for got in quals:
             if s == "out":
                 want = ["outer"]
@@ -164,8 +183,8 @@ def judge_refs(sql, d, refs, srcs, multi):
     bounds={"quick": {}, "thorough": {}},
     timeout={"quick": 120, "thorough": 300},
     witness=[dict(shape=5, d=2, o0=True, o1=True, o2=True, o3=True), dict(shape=0, d=1, o0=True, o1=False, o2=True, o3=False)],
-    doc="SELECT statements over 11 source shapes (plain / aliased / schema-qualified table, two FROM items, join with plain "
-        "/ aliased table / subquery, FROM subquery, aliased self-join, CTE reference, foreign table in WHERE) x clause "
+    doc="SELECT statements over 12 source shapes (plain / aliased / schema-qualified table, two FROM items, join with plain "
+        "/ aliased table / subquery, FROM subquery, aliased self-join, CTE reference, foreign table in WHERE, aliased outside instance of the same table in WHERE) x clause "
         "subsets (where, group by + having, order by; o3: outside reference first / columns given by name) x 6 dialect classes; fields in select / on / where / group by / "
         "having / order by",
 )
@@ -180,7 +199,7 @@ def c11_select(shape: int, d: int, o0: bool, o1: bool, o2: bool, o3: bool) -> in
     return verdict(why is None, "c11_select", shape=shape, d=d, o0=opt[0], o1=opt[1], o2=opt[2], o3=opt[3])
 
 
-NDML = 11
+NDML = 13
 
 
 def build_dml(kind, d):
@@ -231,6 +250,20 @@ def build_dml(kind, d):
         if d != 2:
             return None
         q = Q.into(t).insert(1).returning(col("c0", t, "t", False))
+    elif kind == 11:  # INSERT ... SELECT with a join + conflict target (always bare)
+        if d == 1:
+            return None
+        multi = True
+        q = (Q.into(t).columns("c9").from_(u).join(t).on(col("c1", t, "t", False) == col("c2", u, "u", False))
+             .select(col("c3", u, "u", False)).on_conflict(col("c0", t, "t", False, True)).do_nothing())
+        refs.append(("c9", 0, True))
+    elif kind == 12:  # DISTINCT ON with a join: a field, and a column given by name (first FROM item)
+        if d != 2:
+            return None
+        multi = True
+        q = (Q.from_(t).join(u).on(col("c1", t, "t", False) == col("c2", u, "u", False)).select(col("c3", u, "u", False))
+             .distinct_on(col("c4", u, "u", False), "c5"))
+        refs.append(("c5", 0, False))
     else:
         raise AssertionError(kind)
     return q, refs, srcs, multi
@@ -242,7 +275,7 @@ def build_dml(kind, d):
     bounds={"quick": {}, "thorough": {}},
     timeout={"quick": 120, "thorough": 300},
     witness=[dict(kind=2, d=2), dict(kind=4, d=0)],
-    doc="UPDATE (plain / aliased / ..FROM / ..JOIN), INSERT (column list, ..SELECT, upsert targets), DELETE, JOIN..USING x 6 "
+    doc="UPDATE (plain / aliased / ..FROM / ..JOIN), INSERT (column list, ..SELECT, upsert targets, ..SELECT JOIN + conflict target), DELETE, JOIN..USING, DISTINCT ON with a join x 6 "
         "dialect classes: SET targets, INSERT columns, USING and ON CONFLICT targets bare; other references by the rule",
 )
 def c11_dml(kind: int, d: int) -> int:
